@@ -97,6 +97,9 @@ def generated_code_verbatim(d, o, out):
         k = len(want)
         if k and not any(lines[i:i + k] == want for i in range(len(lines) - k + 1)):
             return [{"clause": "generated_code_verbatim", "got": out[:600], "want": want[:6]}]
+    for info in meta.get("top_info", []):
+        if info and not any(re.match(r"^(`{3,}|~{3,})" + re.escape(info) + r"$", l) for l in lines):
+            return [{"clause": "generated_code_verbatim", "got": out[:600], "want": "info string " + info}]
     return []
 
 
